@@ -222,6 +222,27 @@ static void run_pool(Rng& g, long nops, std::size_t node_size, std::size_t block
         ++n_moves;
         O->verify_all("after move assignment");
     };
+    if (arrays && nops > 10 && g.chance(60) && pool->capacity_left() / ns >= 2)
+    { // prologue: ONE array over every node of the fresh block - it ends with the last node of the block (exactly at the end of the
+      // usable memory when the block size is an exact fit) - released through the composable interface: still the pool's memory
+        std::size_t total = pool->capacity_left() / ns;
+        void*       p = nullptr;
+        std::string res = guarded([&] { p = pool->allocate_array(total); });
+        emit(fmt("pool alloc_array %zu", total), res.empty() ? fmt("ok %zu", R->off(p)) : res, pool_state(*pool));
+        if (res.empty())
+        {
+            add_live(p, true, total, ns, false, "prologue.allocate_array(all nodes)");
+            Live l = live.back();
+            live.pop_back();
+            O->on_release(l.id, "try_deallocate_array (prologue)");
+            bool ok = pool->try_deallocate_array(l.p, l.count);
+            if (!ok)
+                O->fail(fmt("try_deallocate_array refused the array over all %zu nodes of the block that the pool handed out (offset %zu)",
+                            l.count, R->off(l.p)));
+            emit(fmt("pool try_dealloc_array %zu %zu", R->off(l.p), l.count), ok ? "true" : "false", pool_state(*pool));
+            ++n_dealloc;
+        }
+    }
     for (long i = 0; i < nops && O->failures.empty(); ++i)
     {
         if (older && --assign_in <= 0)
@@ -555,7 +576,22 @@ static void run_pool(Rng& g, long nops, std::size_t node_size, std::size_t block
                     break;
                 case 1:
                     if (!live.empty() && live.back().array)
-                        release(live.size() - 1);
+                    {
+                        if (g.chance(60))
+                        { // through the composable interface: an array that ends exactly at the end of its block is still the pool's
+                            Live l = live.back();
+                            live.pop_back();
+                            O->on_release(l.id, "try_deallocate_array (tail drill)");
+                            bool ok = pool->try_deallocate_array(l.p, l.count);
+                            if (!ok)
+                                O->fail(fmt("try_deallocate_array refused an array the pool handed out (the last %zu nodes of a block, offset %zu)",
+                                            l.count, R->off(l.p)));
+                            emit(fmt("pool try_dealloc_array %zu %zu", R->off(l.p), l.count), ok ? "true" : "false", pool_state(*pool));
+                            ++n_dealloc;
+                        }
+                        else
+                            release(live.size() - 1);
+                    }
                     break;
                 default: break;
                 }
@@ -1206,7 +1242,9 @@ int main(int argc, char** argv)
         auto                     run = [&](auto pt)
         {
             using PT = decltype(pt);
-            std::size_t bs = memory_pool<PT>::min_block_size(ns, nodes) + g.below(3) * 5;
+            // exact fit (the last node ends with the block) in half of the traces, a few spare bytes otherwise
+            std::size_t slack_sel = g.below(4);
+            std::size_t bs = memory_pool<PT>::min_block_size(ns, nodes) + (slack_sel < 2 ? 0 : (slack_sel - 1) * 5);
             if (growing)
                 run_pool<PT, growing_block_allocator<RegionAlloc>>(g, nops, ns, bs, "growing");
             else
